@@ -22,7 +22,7 @@ def main(tier, seed, args):
     rep = Report(PID, tier, seed, 'model_checking')
     c = ctx('on')
     rep.bounds = {'htlcs': 2, 'hashes': 'htlc.payment_hash symbolic and independent of the invoice hash', 'parts': 1,
-                  'stored_history': ['absent', 'pending (live/dead part)', 'succeeded'], 'crash': '0 (quick) / 1 (thorough)',
+                  'stored_history': ['absent', 'pending (live/dead part)', 'succeeded'], 'crash': '0 (quick) / 1 with 1 HTLC (thorough); thorough also 2 HTLCs on every stored history',
                   'outside': 'more HTLCs/parts; SHA-256 itself (preimages are terms pre(h), the node attaches them to hashes)'}
     rep.assumptions = ['SHA-256(preimage)=hash is the node contract: pre(h) is the unique preimage term of hash h',
                        'stored Succeeded records found at start satisfy the representation invariant (preimage of the key hash); the write side is checked',
@@ -39,8 +39,12 @@ def main(tier, seed, args):
         cfg, pc = cfg_hashes(1, store)
         configs.append(('hashes[1 htlc, %s]' % store, cfg, pc, [SettleOwnHash(), Coverage(['response:Resolve'])], {}))
     if tier == 'thorough':
-        cfg, pc = cfg_hashes(2, 'free_absent', crash=1)
-        configs.append(('hashes[2 htlcs, crash]', cfg, pc, [SettleOwnHash()], {}))
+        # (2 HTLCs with a crash anywhere exceeded 300 000 states in 43 min without finishing: outside the bound)
+        cfg, pc = cfg_hashes(1, 'free_absent', crash=1)
+        configs.append(('hashes[1 htlc, crash]', cfg, pc, [SettleOwnHash(), Coverage(['crash'])], {'max_states': 1000000}))
+        for store in ('pending', 'succeeded'):
+            cfg, pc = cfg_hashes(2, store)
+            configs.append(('hashes[2 htlcs, %s]' % store, cfg, pc, [SettleOwnHash(), Coverage(['response:Resolve'])], {'max_states': 1000000}))
     scen_common.run_configs(rep, PID, c, configs, budget)
     finish(rep, [c], './check C01 --tier ' + tier)
 
